@@ -166,6 +166,13 @@ def _methods_named(index: RepoIndex, name: str) -> List[Func]:
     return tab.get(name, [])
 
 
+def _plain_receiver(e: ast.AST) -> bool:
+    """a name other than self / cls, or an attribute chain on one (`state.agent`)"""
+    while isinstance(e, ast.Attribute):
+        e = e.value
+    return isinstance(e, ast.Name) and e.id not in ('self', 'cls')
+
+
 class Inliner:
     def __init__(self, index: RepoIndex, func: Func, exclude: Optional[Set[str]] = None,
                  depth: int = 2, methods: bool = False, cross: Optional[Set[str]] = None):
@@ -211,8 +218,7 @@ class Inliner:
             f = tm.functions.get(name) if tm is not None else None
             if f is None or name in self.exclude or opaque_decorators(f.node, registered=True):
                 return None
-        elif isinstance(call.func, ast.Attribute) and \
-                isinstance(call.func.value, ast.Name) and call.func.value.id not in ('self', 'cls'):
+        elif isinstance(call.func, ast.Attribute) and _plain_receiver(call.func.value):
             # `obj.m(..)` where exactly one class of the package defines a method `m` and that
             # method updates its receiver (a mutator moved into the class: `door.open()`);
             # pure one-expression methods are read at expression level instead
@@ -228,7 +234,15 @@ class Inliner:
                     isinstance(t, ast.Attribute) and src_is_self(t.value)
                     for t in (n.targets if isinstance(n, ast.Assign) else [n.target]))
                 for n in ast.walk(f.node))
-            if not stores_self:
+            # a method the pinned tree did not have, with a body of several statements
+            # (`state.pov(area)`, `observation.hide(mask)`): a step of the caller that was
+            # moved into the class, read where it is called
+            from .pinned_names import METHODS as _PM
+            moved = name not in _PM and f.cls is not None and \
+                len(_docless(f.node.body)) > 1 and f.module.relpath.startswith('gym_gridverse/')
+            if not stores_self and not moved:
+                return None
+            if not isinstance(call.func.value, ast.Name) and not moved:
                 return None
             if self.index.module(f.module.relpath) is not self.module and \
                     not f.module.relpath.startswith('gym_gridverse/'):
@@ -305,7 +319,12 @@ class Inliner:
         if is_method:
             if not params:
                 return None
-            if call.func.value.id in ('self', 'cls'):
+            recv_bind = None
+            if not isinstance(call.func.value, ast.Name):
+                # `state.agent.m(..)`: the receiver is bound to a local of its own
+                recv_bind = ast.copy_location(ast.Assign(
+                    [ast.Name(mp[params[0]], ast.Store())], copy.deepcopy(call.func.value)), at)
+            elif call.func.value.id in ('self', 'cls'):
                 mp.pop(params[0], None)      # `self` stays `self`
             else:
                 mp[params[0]] = call.func.value.id   # the receiver's own name
@@ -325,6 +344,8 @@ class Inliner:
         for k in call.keywords:
             bound[k.arg] = k.value
         binds: List[ast.stmt] = []
+        if is_method and recv_bind is not None:
+            binds.append(recv_bind)
         for p in params + kwonly:
             v = bound.get(p, defaults.get(p))
             if v is None:
